@@ -6,6 +6,7 @@ exit 0 held (all obligations discharged; KNOWN-FINDING lines allowed)
 from __future__ import annotations
 
 import argparse
+import asyncio
 import concurrent.futures as cf
 import glob
 import hashlib
@@ -99,7 +100,7 @@ def process_top(job):
                     continue
                 try:
                     rr = R.run_native(top, C.REG, r['cex'])
-                except Exception as ex:  # noqa: BLE001
+                except (Exception, asyncio.CancelledError) as ex:  # noqa: BLE001
                     rr = {'outcome': 'error', 'detail': repr(ex)}
                 oc = rr.get('outcome', 'error')
                 if oc == 'violated' and all(str(f).startswith(('exc#AttributeError', 'exc#TypeError', 'exc#NameError')) for f in rr.get('failed') or ['x']):
@@ -134,7 +135,7 @@ def process_top(job):
                 for label, stt in tries:
                     try:
                         rr = R.run_native(top, C.REG, stt)
-                    except Exception as ex:  # noqa: BLE001
+                    except (Exception, asyncio.CancelledError) as ex:  # noqa: BLE001
                         rr = {'outcome': 'error', 'detail': repr(ex)}
                     rr['from'] = label
                     rr['confirms'] = R.confirms(ob.name, ob.kind, ob.info, rr)
@@ -213,6 +214,9 @@ def safe(name):
 
 
 def main():
+    import logging
+
+    logging.disable(logging.CRITICAL)  # native replays / cross-check runs execute real bumble code: keep its log output out of the report
     ap = argparse.ArgumentParser()
     ap.add_argument('prop')
     ap.add_argument('--tier', default=os.environ.get('VERIF_TIER') or 'quick')
